@@ -286,6 +286,22 @@ fn run_single_program(
 ) -> i32 {
     let capture = options.capture_output;
     if cl.is_single_and_builtin() {
+        // a redirection target that cannot be opened fails the command;
+        // the builtins open their targets only when (and if) they print.
+        for item in &cl.commands[idx_cmd].redirects_to {
+            let to_ = &item.2;
+            if (to_ == "&1" && item.0 == "2") || (to_ == "&2" && item.0 == "1") {
+                continue;
+            }
+            match tools::create_raw_fd_from_file(to_, item.1 == ">>") {
+                Ok(fd) => libs::close(fd),
+                Err(e) => {
+                    println_stderr!("cicada: {}: {}", to_, e);
+                    *cmd_result = CommandResult::error();
+                    return unsafe { libc::getpid() };
+                }
+            }
+        }
         if let Some(cr) = try_run_builtin(sh, cl, idx_cmd, capture) {
             *cmd_result = cr;
             return unsafe { libc::getpid() };
